@@ -17,7 +17,7 @@ CLAIM = ("The Lean model of parse.rs (Model/Parse.lean: terminal lexer incl. esc
          "(the three-phase literal lexer = a character-by-character reference decoder, on every input), terminal_roundtrip / "
          "terminal_roundtrip_escape_all (every literal over the permitted characters, printed with the fewest escapes or with every "
          "special character escaped, reads back exactly), description_roundtrip (every description with quotes and backslashes escaped "
-         "reads back exactly), and the facts about blanks and comments. ladder_roundtrip (Proofs/Ladder.lean): every normal-form tree over literals of regular characters, nonterminals and commands built with sequence, |, ||, [ ] and postfix ..., printed with the minimum of parentheses (Parse.pp), is read back by the parser model as the same tree up to spans — and the text this Lean printer produces for every such tree with <= N nodes is fed to the real parser on every run. ladder_roundtrip_layout (Proofs/LadderLayout.lean): the same under every admissible layout — any stretch of blanks, form feeds and closed # comments chosen independently at every position of the tree (between the items of a sequence, on either side of | and ||, inside brackets and parentheses, before a postfix ...), with at least one character between two words and no # directly after a word; Parse.pp is the instance with one blank at the operators. ladder_roundtrip_full (Proofs/LadderFull.lean): the ladder with literals over every admitted character printed with the fewest escapes, literals with descriptions, descriptions distributed over groups and words built by juxtaposition (--opt=<V>), for a printer that adds the parentheses the three-dots and description rules require; full_restrictions_needed: kernel-evaluated counterexamples for each side condition. grammar_roundtrip / grammar_roundtrip_layout (Proofs/Statements.lean): whole files — lists of statements `cmd expr;`, `<NAME> ::= expr;`, `<NAME@shell> ::= expr;` over the operator ladder under every admissible layout (leading / trailing comments, after names, around ::= or =, before ;, between statements, last ; optional) are read back by the model of Grammar::parse as the same grammar up to spans, with the fuel Grammar::parse itself provides. Open: layout and whole files for the larger fragment (escapes, descriptions, juxtaposition).")
+         "reads back exactly), and the facts about blanks and comments. ladder_roundtrip (Proofs/Ladder.lean): every normal-form tree over literals of regular characters, nonterminals and commands built with sequence, |, ||, [ ] and postfix ..., printed with the minimum of parentheses (Parse.pp), is read back by the parser model as the same tree up to spans — and the text this Lean printer produces for every such tree with <= N nodes is fed to the real parser on every run. ladder_roundtrip_layout (Proofs/LadderLayout.lean): the same under every admissible layout — any stretch of blanks, form feeds and closed # comments chosen independently at every position of the tree (between the items of a sequence, on either side of | and ||, inside brackets and parentheses, before a postfix ...), with at least one character between two words and no # directly after a word; Parse.pp is the instance with one blank at the operators. ladder_roundtrip_full (Proofs/LadderFull.lean): the ladder with literals over every admitted character printed with the fewest escapes, literals with descriptions, descriptions distributed over groups and words built by juxtaposition (--opt=<V>), for a printer that adds the parentheses the three-dots and description rules require; full_restrictions_needed: kernel-evaluated counterexamples for each side condition. grammar_roundtrip / grammar_roundtrip_layout (Proofs/Statements.lean): whole files — lists of statements `cmd expr;`, `<NAME> ::= expr;`, `<NAME@shell> ::= expr;` over the operator ladder under every admissible layout (leading / trailing comments, after names, around ::= or =, before ;, between statements, last ; optional) are read back by the model of Grammar::parse as the same grammar up to spans, with the fuel Grammar::parse itself provides. The Lean printers of these theorems are exercised on every run: the text of Full.pp' for trees with escapes / descriptions / juxtaposition (the driver also reports whether the parser model reads it back, i.e. whether the tree is in the fragment) and the text of ppGrammar / ppGrammarL for grammars of 1-3 statements under layouts drawn from a seed (menu checked admissible by the driver) are fed to the real parser, which must return the tree they were printed from. Open: layout and whole files for the larger fragment (escapes, descriptions, juxtaposition).")
 NOTE = ("Proved: the two lexer round trips and the operator ladder on its fragment; open: layout and statements for the fragment with juxtaposition / descriptions / escaped literals. Trusted: the Python printer (minimum parentheses, fewest "
         "escapes) — it is the specification of the surface syntax here — and vh's tree dump.")
 TECHNIQUE = "exact correspondence of the Lean parser model with the real parser (trees, spans, error locations) + Lean round-trip theorems for the literal and description lexers + print/parse round trip on the real parser"
@@ -67,8 +67,8 @@ def tree_text(e):
     raise ValueError(k)
 
 
-def spanned_wire(t):
-    """wire text (with dummy source positions) of the grammar `cmd <t>;` for trees of the ladder fragment"""
+def _spanned():
+    """writer of the wire text of a tree with dummy source positions"""
     sp = "1:1:1 "
 
     def w(e):
@@ -81,8 +81,30 @@ def spanned_wire(t):
             return f"C {core.hexs(e[1].strip())} 0 0 " + sp
         if k in ("seq", "alt", "fb"):
             return f"{ {'seq': 'S', 'alt': 'A', 'fb': 'F'}[k]} {len(e[1])} " + sp + "".join(w(c) for c in e[1])
-        return {"opt": "O ", "many": "M "}[k] + sp + w(e[1])
-    return (f"G 1 V {core.hexs('cmd')} " + sp + w(t)).strip()
+        if k in ("opt", "many"):
+            return {"opt": "O ", "many": "M "}[k] + sp + w(e[1])
+        if k == "dd":
+            return f"D {core.hexs(e[2])} " + sp + w(e[1])
+        if k == "sub":
+            cs = [flatten_sub(c) for c in e[1]]
+            return "W 0 " + sp + f"S {len(cs)} " + sp + "".join(w(c) for c in cs)
+        raise ValueError(k)
+    return w
+
+
+def spanned_wire(t):
+    return (f"G 1 V {core.hexs('cmd')} 1:1:1 " + _spanned()(t)).strip()
+
+
+def spanned_grammar_wire(variants, defs):
+    """wire text with dummy positions of a whole grammar: call variants of `cmd`, definitions (name, shell or None, tree)"""
+    w = _spanned()
+    out = [f"G {len(variants) + len(defs)} "]
+    for v in variants:
+        out.append(f"V {core.hexs('cmd')} 1:1:1 " + w(v))
+    for n, sh, e in defs:
+        out.append(f"R {core.hexs(n)} 1:1:1 " + (f"{core.hexs(sh)} 1:1:1 " if sh else "- - ") + w(e))
+    return "".join(out).strip()
 
 
 def grammar_text(variants, defs):
@@ -222,6 +244,39 @@ def run(ctx, proof):
         else:
             ctx.correspondence_breaks.append(("ladder-pp", {"tree": grammar_text([t], []), "answer": a}))
     ctx.count("ladder-printer", len(frag))
+    # the printer of Proofs/LadderFull.lean (escapes, descriptions, juxtaposition): the driver also says whether the
+    # parser model reads the text back (true on the whole fragment by ladder_roundtrip_full); those texts must then be
+    # read by the real parser as the tree they were printed from
+    full = [t for t in gen.small_exprs(n) if normal_form(t) and not in_ladder_fragment(t)]
+    for i in range(4000 if ctx.thorough() else 400):
+        g = gen.Gen(rng, max_depth=rng.choice([2, 3, 4]), p_descr=0.4, p_sub=0.35)
+        vs, _ = g.grammar_parts()
+        full += [t for t in (enrich(rng, v) for v in vs[:1]) if normal_form(t)]
+    reqs = ["ppfull " + spanned_wire(t) for t in full]
+    for i, (t, a) in enumerate(zip(full, core.driver_parallel(reqs))):
+        f = a.split(" ")
+        if f[0] == "ok" and len(f) == 3:
+            ctx.count("full-printer:in-fragment" if f[2] == "1" else "full-printer:outside-fragment")
+            cases.append((f"full-pp:{i}", core.unhexs(f[1]) + "\n", grammar_text([t], []) if f[2] == "1" else None))
+        else:
+            ctx.correspondence_breaks.append(("full-pp", {"tree": grammar_text([t], []), "answer": a[:200]}))
+    # the printer of Proofs/Statements.lean: whole grammars over the ladder fragment, plainly (seed 0) and under layouts
+    # drawn from a seed (admissible in the sense of grammar_roundtrip_layout: the driver checks the menu)
+    pool = frag if len(frag) < 4000 else rng.sample(frag, 4000)
+    greqs, gwant = [], []
+    for i in range(3000 if ctx.thorough() else 300):
+        k = rng.choice([1, 1, 2, 3])
+        vs = [rng.choice(pool) for _ in range(rng.choice([1, 1, 2]))]
+        ds = [(f"N{j}", rng.choice([None, None, "bash", "zsh"]), rng.choice(pool)) for j in range(k - 1)]
+        sd = 0 if i % 5 == 0 else rng.randrange(1, 10 ** 6)
+        greqs.append(f"ppgram {sd} " + spanned_grammar_wire(vs, ds))
+        gwant.append(grammar_text(vs, ds))
+    for i, (want, a) in enumerate(zip(gwant, core.driver_parallel(greqs))):
+        if a.startswith("ok "):
+            cases.append((f"gram-pp:{i}", core.unhexs(a[3:]), want))
+        else:
+            ctx.correspondence_breaks.append(("gram-pp", {"tree": want[:300], "answer": a[:200]}))
+    ctx.count("grammar-printer", len(greqs))
     nr = 20000 if ctx.thorough() else 1200
     for i in range(nr):
         g = gen.Gen(rng, max_depth=rng.choice([2, 3, 4, 5]), p_descr=0.4, p_sub=0.25)
